@@ -15,7 +15,7 @@
                            (lift_table; every table entry is built from W's material and the
                            public constants [table_material]; Theorem A)
    lift_spending_condition : the equivalence. *)
-From Verif Require Import Exec Ser Ast Types TypeCheck SatSpec Sat LiftModel TheoremA SatProofs FrameDissat
+From Verif Require Import Exec Ser Ast Types TypeCheck SatSpec Sat LiftModel LiftLimits TheoremA SatProofs FrameDissat
   CompleteProofs CompleteThresh CompleteNonMall CompleteScript DenotSpec DenotMain DenotTable LiftProofs LiftNormProofs LiftMainProofs.
 From Coq Require Import Lia Permutation.
 
@@ -373,6 +373,24 @@ Section DescFull.
       + intros [H|H]; [rewrite H; reflexivity | rewrite (proj2 I1 H); apply orb_true_r].
   Qed.
 End DescFull.
+
+(* ---------- the same for Miniscript::lift with the within_resource_limits verdict COMPUTED from
+   the fragment and its context (LiftLimits.lift_ctx), the function the tie compares ---------- *)
+Theorem lift_ctx_spending_condition (e : env) (ke : keyenv) :
+  (forall ks, Permutation (ksort ke ks) ks) -> (forall kbs, e_sigok e kbs [] = false) ->
+  forall (c : ctx) (unc : key -> bool) (W : wit) (m : ms) (t : ty) (p : lpolicy),
+    keys_ok e ke -> (forall x, In x W -> (blen x < 2147483648)%N) -> pub_in ke m W -> kh_binds e ke W ->
+    type_of m = ROk t -> c_base (t_corr t) = BB -> wf e ke m -> lift_ctx c unc m = LOk p ->
+    (leval (assets_of e ke W) p = true <-> exists w, incl w W /\ accepts e (enc ke m) w = true).
+Proof.
+  intros Hsort Hse c unc W m t p HK Hlen Hpub Hkh Ht Hb Hwf Hl. unfold lift_ctx in Hl.
+  apply lift_iter_some in Hl.
+  exact (lift_spending_condition e ke Hsort Hse W _ m t p HK Hlen Hpub Hkh Ht Hb Hwf Hl).
+Qed.
+(* lift refuses exactly when the computed verdict, the time-lock test or a raw_pk_h says so *)
+Lemma lift_ctx_refuses (c : ctx) (unc : key -> bool) (m : ms) :
+  within_resource_limits c unc m = false -> lift_ctx c unc m = LErr EBranchExceedResourceLimits.
+Proof. intros H. unfold lift_ctx, lift_iter. rewrite H. reflexivity. Qed.
 
 (* ---------- non-vacuity: a concrete environment, key table, world and script ---------- *)
 Definition fx_e : env :=
